@@ -943,6 +943,8 @@ class Evaluator:
                 return Tup([Num(base.length)]) if base.length is not None else Tup([])
             if attr in ('real',):
                 return base
+            if attr in ('dtype', 'ndim', 'itemsize', 'nbytes', 'flat', 'base'):
+                return Term('attr', (base, Const(attr)))
             return Fn('builtin', f"ndarray.{attr}", self_val=base)
         if isinstance(base, Term) and base.head == 'module':
             return Term('attr', (base, Const(attr)))
@@ -1142,7 +1144,18 @@ class Evaluator:
         except Unknown as ex:
             self.issue(st, node, f"cannot canonicalise: {ex}")
             return Term('binop:' + type(op).__name__, (a, b), uid=fresh_serial())
-        return Num(r, length, kind)
+        out = Num(r, length, kind)
+        if length is not None:
+            from .dtypes import dtype_of, value_tag, FLOAT, INT
+            ta = dtype_of(na) if na.length is not None else value_tag(na)
+            tb = dtype_of(nb) if nb.length is not None else value_tag(nb)
+            if isinstance(op, ast.Div) or FLOAT in (ta, tb):
+                out.dt = FLOAT
+            elif ta is not None and tb is not None and (ta == tb or tb == INT):
+                out.dt = ta
+            elif ta is not None and tb is not None and ta == INT:
+                out.dt = tb
+        return out
 
     def eval_BoolOp(self, e, st):
         vals = []
@@ -1692,6 +1705,9 @@ def h_asarray(ev, pos, kw, st, node):
         v = _arg(pos, kw, 0, 'object')
     r = _as_array(ev, v)
     if r is not None:
+        from .dtypes import tag_of_dtype_arg, dtype_of
+        d = kw.get('dtype', pos[1] if len(pos) > 1 else None)
+        r.dt = tag_of_dtype_arg(d) if d is not None and not (isinstance(d, Const) and d.v is None) else dtype_of(v)
         return r
     if isinstance(v, Tup) and all(isinstance(i, Num) and i.is_const() for i in v.items) and v.items:
         return term_as_num(Term('literal_array', (v,), kind='ndarray'), True)
@@ -2130,7 +2146,12 @@ def m_std(ev, recv, pos, kw, st, node):
 
 
 def m_astype(ev, recv, pos, kw, st, node):
-    return recv if isinstance(recv, Num) else None
+    if not isinstance(recv, Num):
+        return None
+    from .dtypes import tag_of_dtype_arg
+    r = Num(recv.r, recv.length, recv.kind)
+    r.dt = tag_of_dtype_arg(kw.get('dtype', pos[0] if pos else None))
+    return r
 
 
 def m_flatten(ev, recv, pos, kw, st, node):
